@@ -1,46 +1,970 @@
 package main
 
+// Case generators.  Families:
+//   A  random single-flow graphs (both directions, roots present/absent, answering nodes, cycles)
+//   B  exhaustive small graphs (thorough; a random sample of the same space in quick)
+//   C  malformed stream (YAML-level and builder-level errors)
+//   D  flow references (one-way, chains, cycles, unknown flows)
+//   E  quota files (field mutations, internal limits, hosts, null entries) + raw transactions
+//   F  transaction-content fuzz (header blocks, bodies, urls) on loaded configurations
+//
+// A transaction that does not return costs a worker restart (~0.1 s), so the generator predicts with a
+// small simulation of its own which transactions loop and spends a fixed budget on them; the prediction
+// only steers the budget, the verdict comes from the Lean model.
+
 import (
+	"fmt"
+	"sort"
+	"strings"
+
 	"verif/harness/internal/prng"
 	"verif/harness/internal/proto"
 )
 
+const (
+	sStart = "S:globalStream:start"
+	sEnd   = "S:globalStream:end"
+)
+
+var vocabLines = []string{
+	"ptype PA a:any b:any",
+	"ptype PE a:any b:any e:res",
+	"ptype PU %e:any",
+	"ptype PD n0:any n1:any n2:any n3:any",
+	"ptype PQ a:any",
+	"preq PQ need",
+}
+
+func pe(key, cond string) string { return "P:" + proto.Enc(key) + ":" + proto.Enc(cond) }
+
+type gedge struct {
+	from, to int // to == -1: stream end
+	cond     string
+}
+
+// ggraph: one direction over nodes 0..n-1 (keys K0..); root -1 = no stream entry
+type ggraph struct {
+	n     int
+	root  int
+	edges []gedge
+}
+
+func key(i int) string { return fmt.Sprintf("K%d", i) }
+
+func (g *ggraph) conns(flow, dir string) []string {
+	var out []string
+	if g.root >= 0 {
+		out = append(out, fmt.Sprintf("conn %s %s %s %s", flow, dir, sStart, pe(key(g.root), "")))
+	}
+	for _, e := range g.edges {
+		to := sEnd
+		if e.to >= 0 {
+			to = pe(key(e.to), "")
+		}
+		out = append(out, fmt.Sprintf("conn %s %s %s %s", flow, dir, pe(key(e.from), e.cond), to))
+	}
+	if len(out) == 0 {
+		out = append(out, fmt.Sprintf("conn %s %s %s %s", flow, dir, sStart, sEnd))
+	}
+	return out
+}
+
+// first processor edge target per node, in connection order after de-duplication (the short-circuit entry)
+func (g *ggraph) firstEdge(k int) (gedge, bool) {
+	for _, e := range g.edges {
+		if e.from == k {
+			return e, true
+		}
+	}
+	return gedge{}, false
+}
+
+// loops: does the walk from `start` with output out[node] revisit a node of its own call stack?
+func (g *ggraph) loops(start int, out []string) bool {
+	on := make([]bool, g.n)
+	budget := 200000
+	var rec func(k int) bool
+	rec = func(k int) bool {
+		if on[k] {
+			return true
+		}
+		budget--
+		if budget < 0 {
+			return true
+		}
+		on[k] = true
+		seen := map[string]bool{}
+		for _, e := range g.edges {
+			if e.from != k || e.to < 0 || e.cond != out[k] {
+				continue
+			}
+			id := fmt.Sprintf("%d", e.to)
+			if seen[id] {
+				continue
+			}
+			seen[id] = true
+			if rec(e.to) {
+				return true
+			}
+		}
+		on[k] = false
+		return false
+	}
+	return rec(start)
+}
+
+// rootCycle: a processor cycle is reachable from the root (conditions ignored): the loader refuses the
+// direction, transactions are answered `not-loaded` and cost nothing.
+func (g *ggraph) rootCycle() bool {
+	if g.root < 0 {
+		return false
+	}
+	state := make([]int, g.n)
+	var rec func(k int) bool
+	rec = func(k int) bool {
+		if state[k] == 1 {
+			return true
+		}
+		if state[k] == 2 {
+			return false
+		}
+		state[k] = 1
+		for _, e := range g.edges {
+			if e.from == k && e.to >= 0 && rec(e.to) {
+				return true
+			}
+		}
+		state[k] = 2
+		return false
+	}
+	return rec(g.root)
+}
+
+type budget struct {
+	crashes int
+}
+
+func oracleStr(flow, dir string, out []string, extra string) string {
+	var parts []string
+	for i, o := range out {
+		parts = append(parts, fmt.Sprintf("%s/%s/%s=n:%s", flow, key(i), dir, proto.Enc(o)))
+	}
+	if extra != "" {
+		parts = append(parts, extra)
+	}
+	if len(parts) == 0 {
+		return "-"
+	}
+	return strings.Join(parts, ",")
+}
+
+// ---------------------------------------------------------------- family B: response direction + dispatcher
+
+// respCase: flow f1 with request `start -> D`, `D -n_i-> K_i` (K_i answers) and the response graph g.
+// Transactions: the response from the root and, for every node, the request answered by that node, each
+// under constant oracles.
+func respCase(id string, g *ggraph, consts []string, b *budget, sample func() bool) proto.Case {
+	ops := append([]string{}, vocabLines...)
+	ops = append(ops, "flow f1", "proc f1 D PD")
+	for i := 0; i < g.n; i++ {
+		ops = append(ops, fmt.Sprintf("proc f1 %s PE", key(i)))
+	}
+	ops = append(ops, fmt.Sprintf("conn f1 req %s %s", sStart, pe("D", "")))
+	for i := 0; i < g.n; i++ {
+		ops = append(ops, fmt.Sprintf("conn f1 req %s %s", pe("D", fmt.Sprintf("n%d", i)), pe(key(i), "")))
+	}
+	ops = append(ops, g.conns("f1", "res")...)
+	ops = append(ops, "load")
+	for _, c := range consts {
+		out := make([]string, g.n)
+		for i := range out {
+			out[i] = c
+		}
+		if g.root >= 0 {
+			ops = append(ops, "txn dir=res o="+oracleStr("f1", "res", out, ""))
+		}
+		for k := 0; k < g.n; k++ {
+			e, ok := g.firstEdge(k)
+			risky := ok && e.to >= 0 && g.loops(e.to, out)
+			if risky && !g.rootCycle() {
+				if b.crashes <= 0 || !sample() {
+					continue
+				}
+				b.crashes--
+			}
+			extra := fmt.Sprintf("f1/D/req=n:n%d,f1/%s/req=e:e", k, key(k))
+			ops = append(ops, "txn dir=req o="+oracleStr("f1", "res", out, extra))
+		}
+	}
+	return proto.Case{ID: id, Ops: ops}
+}
+
+// reqCase: the request direction is the graph g (root required by the loader), trivial response.
+func reqCase(id string, g *ggraph, consts []string) proto.Case {
+	ops := append([]string{}, vocabLines...)
+	ops = append(ops, "flow f1")
+	for i := 0; i < g.n; i++ {
+		ops = append(ops, fmt.Sprintf("proc f1 %s PE", key(i)))
+	}
+	ops = append(ops, g.conns("f1", "req")...)
+	ops = append(ops, fmt.Sprintf("conn f1 res %s %s", sStart, sEnd), "load")
+	for _, c := range consts {
+		out := make([]string, g.n)
+		for i := range out {
+			out[i] = c
+		}
+		ops = append(ops, "txn dir=req o="+oracleStr("f1", "req", out, ""))
+	}
+	return proto.Case{ID: id, Ops: ops}
+}
+
+var labelSets = [][]string{nil, {"a"}, {"b"}, {"a", "b"}}
+
+// enumGraph decodes graph number m over n nodes: for every ordered pair (i,j) (self loops if self) a digit
+// in base len(labels) selecting the label set; root from the remaining digits (0 = none).
+func enumGraph(n int, self bool, labels [][]string, m int) *ggraph {
+	g := &ggraph{n: n}
+	for i := 0; i < n; i++ {
+		for j := 0; j < n; j++ {
+			if i == j && !self {
+				continue
+			}
+			d := m % len(labels)
+			m /= len(labels)
+			for _, l := range labels[d] {
+				g.edges = append(g.edges, gedge{from: i, to: j, cond: l})
+			}
+		}
+	}
+	g.root = m%(n+1) - 1
+	return g
+}
+
+func enumCount(n int, self bool, labels int) int {
+	pairs := n * (n - 1)
+	if self {
+		pairs = n * n
+	}
+	c := n + 1
+	for i := 0; i < pairs; i++ {
+		c *= labels
+	}
+	return c
+}
+
+type space struct {
+	name   string
+	n      int
+	self   bool
+	labels [][]string
+}
+
+var spaces = []space{
+	{"n2full", 2, true, labelSets},
+	{"n3two", 3, false, labelSets},
+	{"n3self", 3, true, labelSets[:2]},
+	{"n4one", 4, false, labelSets[:2]},
+}
+
+// leaves: give every node without outgoing edge a `-> stream end` connection with probability, so that both
+// "unconnected" and connected leaves occur; deterministic in m.
+func withLeaves(g *ggraph, m int) *ggraph {
+	has := make([]bool, g.n)
+	tgt := make([]bool, g.n)
+	for _, e := range g.edges {
+		has[e.from] = true
+		if e.to >= 0 {
+			tgt[e.to] = true
+		}
+	}
+	for i := 0; i < g.n; i++ {
+		if !has[i] && (tgt[i] || i == g.root || (m+i)%3 != 0) {
+			g.edges = append(g.edges, gedge{from: i, to: -1, cond: "a"})
+		}
+	}
+	return g
+}
+
+// ---------------------------------------------------------------- family A: random graphs
+
+func randGraph(r *prng.R, n int, conds []string, needRoot bool) *ggraph {
+	g := &ggraph{n: n, root: -1}
+	if needRoot || r.Chance(75) {
+		g.root = r.Intn(n)
+	}
+	shape := prng.Pick(r, []int{0, 0, 0, 0, 2, 2, 2, 1})
+	for i := 0; i < n; i++ {
+		deg := r.Intn(3)
+		for k := 0; k < deg; k++ {
+			var j int
+			switch shape {
+			case 0: // DAG-ish: forward edges
+				if i+1 >= n {
+					j = -1
+				} else {
+					j = i + 1 + r.Intn(n-i-1)
+				}
+			case 1: // anything, incl. back edges and self loops
+				j = r.Intn(n)
+			default: // mostly forward, a few back edges
+				if r.Chance(88) && i+1 < n {
+					j = i + 1 + r.Intn(n-i-1)
+				} else {
+					j = r.Intn(n)
+				}
+			}
+			g.edges = append(g.edges, gedge{from: i, to: j, cond: prng.Pick(r, conds)})
+		}
+		if deg == 0 || r.Chance(20) {
+			g.edges = append(g.edges, gedge{from: i, to: -1, cond: prng.Pick(r, conds)})
+		}
+	}
+	return g
+}
+
+func randCase(r *prng.R, id string, b *budget) proto.Case {
+	n := r.Range(2, 7)
+	conds := []string{"a", "b"}
+	rq := randGraph(r, n, conds, !r.Chance(6))
+	rs := randGraph(r, n, conds, false)
+	if r.Chance(10) {
+		rs = &ggraph{n: n, root: -1} // undefined response direction (stream -> stream)
+	}
+	ops := append([]string{}, vocabLines...)
+	ops = append(ops, "flow f1")
+	for i := 0; i < n; i++ {
+		ops = append(ops, fmt.Sprintf("proc f1 %s PE", key(i)))
+	}
+	ops = append(ops, rq.conns("f1", "req")...)
+	ops = append(ops, rs.conns("f1", "res")...)
+	ops = append(ops, "load")
+	for t := 0; t < 8; t++ {
+		outQ := make([]string, n)
+		outS := make([]string, n)
+		for i := 0; i < n; i++ {
+			outQ[i] = prng.Pick(r, []string{"a", "a", "b", "b", "", "zz"})
+			outS[i] = prng.Pick(r, []string{"a", "a", "b", "b", "", "zz"})
+		}
+		if t%3 == 2 {
+			if rs.root >= 0 && rs.loops(rs.root, outS) && !rq.rootCycle() && !rs.rootCycle() {
+				if b.crashes <= 0 {
+					continue
+				}
+				b.crashes--
+			}
+			extra := ""
+			if r.Chance(15) {
+				extra = fmt.Sprintf("f1/%s/res=x", key(r.Intn(n)))
+			}
+			ops = append(ops, "txn dir=res o="+oracleStr("f1", "res", outS, extra))
+			continue
+		}
+		// request transaction: maybe one answering node, maybe one failing node
+		var extras []string
+		ans := -1
+		if r.Chance(60) {
+			ans = r.Intn(n)
+			extras = append(extras, fmt.Sprintf("f1/%s/req=e:e", key(ans)))
+		}
+		if r.Chance(10) {
+			extras = append(extras, fmt.Sprintf("f1/%s/req=x", key(r.Intn(n))))
+		}
+		risky := rq.root >= 0 && rq.loops(rq.root, outQ)
+		if ans >= 0 {
+			if e, ok := rs.firstEdge(ans); ok && e.to >= 0 && rs.loops(e.to, outS) {
+				risky = true
+			}
+		}
+		if risky && !rq.rootCycle() && !rs.rootCycle() {
+			if b.crashes <= 0 {
+				continue
+			}
+			b.crashes--
+		}
+		o := oracleStr("f1", "req", outQ, "") + "," + oracleStr("f1", "res", outS, strings.Join(extras, ","))
+		ops = append(ops, "txn dir=req o="+strings.TrimSuffix(o, ","))
+	}
+	return proto.Case{ID: id, Ops: ops}
+}
+
+// ---------------------------------------------------------------- family C: malformed stream
+
+func baseFlow(name string) []string {
+	return []string{
+		"flow " + name,
+		fmt.Sprintf("proc %s A PA", name),
+		fmt.Sprintf("proc %s B PA", name),
+		fmt.Sprintf("conn %s req %s %s", name, sStart, pe("A", "")),
+		fmt.Sprintf("conn %s req %s %s", name, pe("A", "a"), pe("B", "")),
+		fmt.Sprintf("conn %s req %s %s", name, pe("B", "a"), sEnd),
+		fmt.Sprintf("conn %s res %s %s", name, sStart, pe("B", "")),
+		fmt.Sprintf("conn %s res %s %s", name, pe("B", "b"), sEnd),
+	}
+}
+
+var malformedKinds = []string{
+	"dangling-proc", "dangling-target", "dup-param", "missing-required", "with-required", "empty-request", "empty-response",
+	"empty-both", "nil-from", "nil-to", "empty-stream-name", "empty-proc-name", "empty-flow-ref-name",
+	"unknown-ptype", "empty-ptype", "bad-at-start", "bad-at-end", "empty-url", "no-filter", "bad-url", "dup-flow-name",
+	"bad-condition", "res-only-condition-on-req", "empty-flow-name", "stream-to-flow", "flow-to-stream", "no-root",
+	"unconnected", "two-flows-one-bad", "proc-to-stream-start", "unused-proc",
+}
+
+func malformedCase(r *prng.R, id, kind string) proto.Case {
+	ops := append([]string{}, vocabLines...)
+	f := baseFlow("f1")
+	add := func(l ...string) { f = append(f, l...) }
+	repl := func(i int, l string) { f[i] = l }
+	switch kind {
+	case "dangling-proc":
+		add(fmt.Sprintf("conn f1 req %s %s", pe("Z", "a"), sEnd))
+	case "dangling-target":
+		add(fmt.Sprintf("conn f1 res %s %s", pe("B", "a"), pe("Z", "")))
+	case "dup-param":
+		repl(1, "proc f1 A PA k=1 k=2")
+	case "missing-required":
+		repl(1, "proc f1 A PQ")
+	case "with-required":
+		repl(1, "proc f1 A PQ need=1 other=2")
+	case "empty-request":
+		f = []string{f[0], f[1], f[2], f[6], f[7]}
+	case "empty-response":
+		f = f[:6]
+	case "empty-both":
+		f = f[:3]
+	case "nil-from":
+		add("conn f1 req X " + sEnd)
+	case "nil-to":
+		add(fmt.Sprintf("conn f1 res %s X", pe("B", "a")))
+	case "empty-stream-name":
+		add(fmt.Sprintf("conn f1 req %s S:%%e:end", pe("B", "b")))
+	case "empty-proc-name":
+		add(fmt.Sprintf("conn f1 req %s %s", pe("", "a"), sEnd))
+	case "empty-flow-ref-name":
+		add(fmt.Sprintf("conn f1 req %s F:%%e:start", pe("B", "b")))
+	case "dot-key":
+		repl(1, "proc f1 A.x PA")
+		repl(3, fmt.Sprintf("conn f1 req %s %s", sStart, pe("A.x", "")))
+		repl(4, fmt.Sprintf("conn f1 req %s %s", pe("A.x", "a"), pe("B", "")))
+	case "unknown-ptype":
+		repl(2, "proc f1 B NOPE")
+	case "empty-ptype":
+		repl(2, "proc f1 B %e")
+	case "bad-at-start":
+		repl(3, fmt.Sprintf("conn f1 req S:globalStream:begin %s", pe("A", "")))
+	case "bad-at-end":
+		repl(5, fmt.Sprintf("conn f1 req %s S:globalStream:finish", pe("B", "a")))
+	case "empty-url":
+		repl(0, "flow f1 url=%e")
+	case "no-filter":
+		repl(0, "flow f1 url=-")
+	case "bad-url":
+		repl(0, "flow f1 url=verif.test//x")
+	case "dup-flow-name":
+		add(baseFlow("f1")...)
+	case "bad-condition":
+		repl(4, fmt.Sprintf("conn f1 req %s %s", pe("A", "nope"), pe("B", "")))
+	case "res-only-condition-on-req":
+		repl(1, "proc f1 A PE")
+		repl(4, fmt.Sprintf("conn f1 req %s %s", pe("A", "e"), pe("B", "")))
+	case "empty-flow-name":
+		f = baseFlow("%e")
+	case "stream-to-flow":
+		add(fmt.Sprintf("conn f1 req %s F:f1:start", sStart))
+	case "flow-to-stream":
+		add(fmt.Sprintf("conn f1 req F:f1:end %s", sEnd))
+	case "no-root":
+		f = append(f[:3], f[4:]...)
+	case "unconnected":
+		add("proc f1 C PA", fmt.Sprintf("conn f1 req %s %s", sStart, pe("C", "")), fmt.Sprintf("conn f1 req %s %s", sStart, pe("A", "")))
+	case "two-flows-one-bad":
+		add(baseFlow("f2")...)
+		add(fmt.Sprintf("conn f2 req %s %s", pe("Z", "a"), sEnd))
+	case "proc-to-stream-start":
+		add(fmt.Sprintf("conn f1 req %s S:globalStream:start", pe("B", "b")))
+	case "unused-proc":
+		add("proc f1 C PA")
+	}
+	ops = append(ops, f...)
+	ops = append(ops, "load", "txn dir=req o=f1/A/req=n:a,f1/B/req=n:a", "txn dir=res o=f1/B/res=n:b")
+	_ = r
+	return proto.Case{ID: id, Ops: ops}
+}
+
+// ---------------------------------------------------------------- family D: flow references
+
+// refFlow: flow `name` with processors <name>A, <name>B: start -> A, A -a-> B, B -a-> end (or a reference)
+func refFlow(name, tail string, dir string) []string {
+	a, b := name+"A", name+"B"
+	other := "res"
+	if dir == "res" {
+		other = "req"
+	}
+	return []string{
+		"flow " + name,
+		fmt.Sprintf("proc %s %s PA", name, a),
+		fmt.Sprintf("proc %s %s PA", name, b),
+		fmt.Sprintf("conn %s %s %s %s", name, dir, sStart, pe(a, "")),
+		fmt.Sprintf("conn %s %s %s %s", name, dir, pe(a, "a"), pe(b, "")),
+		fmt.Sprintf("conn %s %s %s %s", name, dir, pe(b, "a"), tail),
+		fmt.Sprintf("conn %s %s %s %s", name, other, sStart, sEnd),
+	}
+}
+
+var refKinds = []string{"one-way", "chain3", "cycle2", "cycle3", "self", "unknown", "no-start-in-target", "flow-end-entry",
+	"one-way-res", "cycle2-res", "bad-at", "diamond"}
+
+func refCase(r *prng.R, id, kind string) proto.Case {
+	ops := append([]string{}, vocabLines...)
+	ref := func(n string) string { return "F:" + n + ":start" }
+	var names []string
+	switch kind {
+	case "one-way":
+		ops = append(ops, refFlow("fa", ref("fb"), "req")...)
+		ops = append(ops, refFlow("fb", sEnd, "req")...)
+		names = []string{"fa", "fb"}
+	case "chain3":
+		ops = append(ops, refFlow("fa", ref("fb"), "req")...)
+		ops = append(ops, refFlow("fb", ref("fc"), "req")...)
+		ops = append(ops, refFlow("fc", sEnd, "req")...)
+		names = []string{"fa", "fb", "fc"}
+	case "diamond":
+		ops = append(ops, refFlow("fa", ref("fc"), "req")...)
+		ops = append(ops, refFlow("fb", ref("fc"), "req")...)
+		ops = append(ops, refFlow("fc", sEnd, "req")...)
+		names = []string{"fa", "fb", "fc"}
+	case "cycle2":
+		ops = append(ops, refFlow("fa", ref("fb"), "req")...)
+		ops = append(ops, refFlow("fb", ref("fa"), "req")...)
+		names = []string{"fa", "fb"}
+	case "cycle3":
+		ops = append(ops, refFlow("fa", ref("fb"), "req")...)
+		ops = append(ops, refFlow("fb", ref("fc"), "req")...)
+		ops = append(ops, refFlow("fc", ref("fa"), "req")...)
+		names = []string{"fa", "fb", "fc"}
+	case "self":
+		ops = append(ops, refFlow("fa", ref("fa"), "req")...)
+		names = []string{"fa"}
+	case "unknown":
+		ops = append(ops, refFlow("fa", ref("nope"), "req")...)
+		names = []string{"fa"}
+	case "no-start-in-target":
+		ops = append(ops, refFlow("fa", ref("fb"), "req")...)
+		fb := refFlow("fb", sEnd, "req")
+		fb = append(fb[:3], fb[4:]...) // drop `start -> fbA`: no foreign root; fb itself has no root
+		ops = append(ops, fb...)
+		names = []string{"fa", "fb"}
+	case "flow-end-entry":
+		ops = append(ops, refFlow("fa", sEnd, "req")...)
+		fb := refFlow("fb", sEnd, "req")
+		fb[3] = fmt.Sprintf("conn fb req F:fa:end %s", pe("fbA", ""))
+		ops = append(ops, fb...)
+		names = []string{"fa", "fb"}
+	case "one-way-res":
+		ops = append(ops, refFlow("fa", ref("fb"), "res")...)
+		ops = append(ops, refFlow("fb", sEnd, "res")...)
+		names = []string{"fa", "fb"}
+	case "cycle2-res":
+		ops = append(ops, refFlow("fa", ref("fb"), "res")...)
+		ops = append(ops, refFlow("fb", ref("fa"), "res")...)
+		names = []string{"fa", "fb"}
+	case "bad-at":
+		ops = append(ops, refFlow("fa", "F:fb:end", "req")...)
+		ops = append(ops, refFlow("fb", sEnd, "req")...)
+		names = []string{"fa", "fb"}
+	}
+	ops = append(ops, "load")
+	var parts []string
+	for _, n := range names {
+		for _, d := range []string{"req", "res"} {
+			parts = append(parts, fmt.Sprintf("%s/%sA/%s=n:a,%s/%sB/%s=n:a", n, n, d, n, n, d))
+		}
+	}
+	ops = append(ops, "txn dir=req o="+strings.Join(parts, ","), "txn dir=res o="+strings.Join(parts, ","), "txn dir=req o=-")
+	_ = r
+	return proto.Case{ID: id, Ops: ops}
+}
+
+// ---------------------------------------------------------------- family E: quota files
+
+type qfields map[string]string
+
+func (q qfields) words() string {
+	keys := make([]string, 0, len(q))
+	for k := range q {
+		keys = append(keys, k)
+	}
+	sort.Strings(keys)
+	var w []string
+	for _, k := range keys {
+		w = append(w, k+"="+q[k])
+	}
+	return strings.Join(w, " ")
+}
+
+func validStrat(r *prng.R) qfields {
+	switch r.Intn(5) {
+	case 0, 1:
+		q := qfields{"s": "fixed", "max": fmt.Sprint(r.Range(1, 5)), "int": fmt.Sprint(r.Range(1, 3)),
+			"unit": prng.Pick(r, []string{"second", "minute", "hour", "day", "month"})}
+		if r.Chance(20) {
+			q["grp"] = "x-group"
+		}
+		if r.Chance(25) {
+			q["mr"] = fmt.Sprintf("%d:%d:%d:%s", r.Range(1, 31), r.Range(0, 23), r.Range(0, 59), prng.Pick(r, []string{"UTC", "Local"}))
+			if r.Chance(50) {
+				q["spill"] = fmt.Sprint(r.Range(1, 9))
+			}
+		}
+		return q
+	case 2:
+		return qfields{"s": "custom", "max": "5", "int": "1", "unit": "minute", "path": proto.Enc("$.request.headers.x")}
+	case 3:
+		q := qfields{"s": "conc", "maxreq": fmt.Sprint(r.Range(-2, 3))}
+		if r.Chance(30) {
+			q["exp"] = fmt.Sprint(r.Range(0, 3))
+		}
+		if r.Chance(30) {
+			q["gc"] = fmt.Sprint(r.Range(0, 3))
+		}
+		return q
+	}
+	return qfields{"s": "hdr"}
+}
+
+var quotaMutations = []string{
+	"none", "none", "none", "int0", "max0", "int-neg", "max-neg", "bad-unit", "no-unit", "no-max", "no-int", "huge-int",
+	"strategy-none", "strategy-missing", "alloc-only", "alloc-neg", "alloc-101", "alloc-100", "exp-neg", "gc-neg",
+	"no-filter", "empty-url", "bad-url", "empty-id", "mr-day0", "mr-day32", "mr-hour24", "mr-min60", "mr-neg", "mr-tz",
+	"spill-no-mr", "spill0", "custom-no-path", "custom-empty-path", "conc-empty",
+}
+
+func mutate(r *prng.R, q qfields, url *string, id *string, mut string) {
+	fixed := func() {
+		for k := range q {
+			delete(q, k)
+		}
+		q["s"], q["max"], q["int"], q["unit"] = "fixed", "3", "1", "minute"
+	}
+	switch mut {
+	case "int0":
+		fixed()
+		q["int"] = "0"
+	case "max0":
+		fixed()
+		q["max"] = "0"
+	case "int-neg":
+		fixed()
+		q["int"] = "-1"
+	case "max-neg":
+		fixed()
+		q["max"] = "-4"
+	case "bad-unit":
+		fixed()
+		q["unit"] = prng.Pick(r, []string{"week", "Second", "%e", "minutes"})
+	case "no-unit":
+		fixed()
+		delete(q, "unit")
+	case "no-max":
+		fixed()
+		delete(q, "max")
+	case "no-int":
+		fixed()
+		delete(q, "int")
+	case "huge-int":
+		fixed()
+		q["int"] = "9223372036854775807"
+		q["unit"] = "month"
+	case "strategy-none":
+		for k := range q {
+			delete(q, k)
+		}
+		q["s"] = "none"
+	case "strategy-missing":
+		for k := range q {
+			delete(q, k)
+		}
+		q["s"] = "missing"
+	case "alloc-only":
+		for k := range q {
+			delete(q, k)
+		}
+		q["s"], q["alloc"] = "none", "50"
+	case "alloc-neg":
+		q["alloc"] = "-5"
+	case "alloc-101":
+		q["alloc"] = "101"
+	case "alloc-100":
+		q["alloc"] = "100"
+	case "exp-neg":
+		for k := range q {
+			delete(q, k)
+		}
+		q["s"], q["maxreq"], q["exp"] = "conc", "2", "-1"
+	case "gc-neg":
+		for k := range q {
+			delete(q, k)
+		}
+		q["s"], q["maxreq"], q["gc"] = "conc", "2", "-7"
+	case "conc-empty":
+		for k := range q {
+			delete(q, k)
+		}
+		q["s"] = "conc"
+	case "no-filter":
+		*url = "-"
+	case "empty-url":
+		*url = "%e"
+	case "bad-url":
+		*url = "verif.test//x"
+	case "empty-id":
+		*id = "%e"
+	case "mr-day0":
+		fixed()
+		q["mr"] = "0:0:0:UTC"
+	case "mr-day32":
+		fixed()
+		q["mr"] = "32:0:0:UTC"
+	case "mr-hour24":
+		fixed()
+		q["mr"] = "1:24:0:UTC"
+	case "mr-min60":
+		fixed()
+		q["mr"] = "1:0:60:Local"
+	case "mr-neg":
+		fixed()
+		q["mr"] = "1:-1:0:UTC"
+	case "mr-tz":
+		fixed()
+		q["mr"] = "1:0:0:" + prng.Pick(r, []string{"Mars", "utc", "%e", "Europe/Berlin"})
+	case "spill-no-mr":
+		fixed()
+		q["spill"] = "4"
+	case "spill0":
+		fixed()
+		q["mr"] = "1:0:0:UTC"
+		q["spill"] = prng.Pick(r, []string{"0", "-3"})
+	case "custom-no-path":
+		fixed()
+		q["s"] = "custom"
+	case "custom-empty-path":
+		fixed()
+		q["s"], q["path"] = "custom", "%e"
+	}
+}
+
+var quotaShapes = []string{"single", "single", "single", "internal", "internal", "internal-chain", "internal-unknown-parent",
+	"internal-no-parent", "internal-self-parent", "internal-before-parent", "internal-other-host", "internal-alloc",
+	"internal-alloc-conc-parent", "two-hosts-one-file", "one-host-two-files", "two-files-two-hosts", "null-quota",
+	"null-internal", "null-internal-no-quotas", "empty-file", "with-flow", "two-quotas"}
+
+func quotaCase(r *prng.R, id string) proto.Case {
+	shape := prng.Pick(r, quotaShapes)
+	mut := prng.Pick(r, quotaMutations)
+	var ops []string
+	url, qid := "verif.test/*", "q1"
+	if r.Chance(30) {
+		url = prng.Pick(r, []string{"verif.test/x", "verif.test/*", "*", "verif.test/x/y"})
+	}
+	q := validStrat(r)
+	target := r.Intn(2) // which entry the mutation hits in shapes with an internal limit
+	if !strings.HasPrefix(shape, "internal") || target == 0 {
+		mutate(r, q, &url, &qid, mut)
+	}
+	quota := func(id, url string, q qfields) string { return fmt.Sprintf("quota %s url=%s %s", id, url, q.words()) }
+	il := func(id, parent, url string, q qfields) string {
+		return fmt.Sprintf("ilimit %s parent=%s url=%s %s", id, parent, url, q.words())
+	}
+	child := func() (qfields, string, string) {
+		c := validStrat(r)
+		curl, cid := prng.Pick(r, []string{"-", "verif.test/x", "verif.test/*", "%e"}), "c1"
+		if target == 1 {
+			mutate(r, c, &curl, &cid, mut)
+		}
+		return c, curl, cid
+	}
+	switch shape {
+	case "single":
+		ops = append(ops, quota(qid, url, q))
+	case "two-quotas":
+		ops = append(ops, quota(qid, url, q), quota("q2", "verif.test/y", validStrat(r)))
+	case "internal":
+		c, curl, cid := child()
+		ops = append(ops, quota(qid, url, q), il(cid, "q1", curl, c))
+	case "internal-chain":
+		c, curl, cid := child()
+		ops = append(ops, quota(qid, url, q), il(cid, "q1", curl, c), il("c2", "c1", "-", validStrat(r)))
+	case "internal-unknown-parent":
+		c, curl, cid := child()
+		ops = append(ops, quota(qid, url, q), il(cid, "nope", curl, c))
+	case "internal-no-parent":
+		c, curl, cid := child()
+		ops = append(ops, quota(qid, url, q), il(cid, "-", curl, c))
+	case "internal-self-parent":
+		c, curl, cid := child()
+		ops = append(ops, quota(qid, url, q), il(cid, "c1", curl, c))
+	case "internal-before-parent":
+		c, curl, cid := child()
+		ops = append(ops, quota(qid, url, q), il("c2", "c1", "-", validStrat(r)), il(cid, "q1", curl, c))
+	case "internal-other-host":
+		c, _, cid := child()
+		ops = append(ops, quota(qid, url, q), il(cid, "q1", "other.test/x", c))
+	case "internal-alloc":
+		ops = append(ops, quota(qid, url, q), il("c1", "q1", "-", qfields{"s": "none", "alloc": fmt.Sprint(r.Range(0, 100))}))
+	case "internal-alloc-conc-parent":
+		ops = append(ops, quota(qid, url, qfields{"s": "conc", "maxreq": "3"}),
+			il("c1", "q1", "-", qfields{"s": prng.Pick(r, []string{"none", "conc"}), "alloc": "50"}))
+	case "two-hosts-one-file":
+		ops = append(ops, quota(qid, url, q), quota("q2", "other.test/*", validStrat(r)))
+	case "one-host-two-files":
+		ops = append(ops, quota(qid, url, q), "qfile", quota("q2", "verif.test/y", validStrat(r)))
+	case "two-files-two-hosts":
+		ops = append(ops, quota(qid, url, q), "qfile", quota("q2", "other.test/*", validStrat(r)))
+	case "null-quota":
+		if r.Bool() {
+			ops = append(ops, quota(qid, url, q))
+		}
+		ops = append(ops, "qnull quotas")
+	case "null-internal":
+		ops = append(ops, quota(qid, url, q), "qnull internal")
+	case "null-internal-no-quotas":
+		ops = append(ops, "qfile", "qnull internal")
+	case "empty-file":
+		ops = append(ops, "qfile")
+	case "with-flow":
+		ops = append(ops, vocabLines...)
+		ops = append(ops, quota(qid, url, q))
+		ops = append(ops, baseFlow("f1")...)
+	}
+	ops = append(ops, "load")
+	if shape == "with-flow" {
+		ops = append(ops, "txn dir=req o=f1/A/req=n:a,f1/B/req=n:a", "txn dir=res o=f1/B/res=n:b")
+	}
+	for i := 0; i < 3; i++ {
+		ops = append(ops, rawTxn(r, false))
+	}
+	return proto.Case{ID: id, Ops: ops}
+}
+
+// ---------------------------------------------------------------- family F: transaction content
+
+var fuzzURLs = []string{"verif.test/x", "verif.test//x", "verif.test/x/", "verif.test/", "verif.test", "", "/", "//", "verif.test/x//y",
+	"verif.test/x?a=1", "verif.test/%2F", "other.test/x", "verif.test:8080/x", "http://verif.test/x", "verif.test/x/../y", "*",
+	"verif.test/{id}", "verif.test/x\x00y", "VERIF.TEST/X", strings.Repeat("a/", 300)}
+
+var fuzzBodies = []string{"", "{", "}", "{\"a\":", "[1,2", "{\"a\":{\"b\":[1,{\"c\":null}]}}", "null", "\"str\"", "12e999", "{\"a\":1}{\"b\":2}",
+	"\x00\x01\xff\xfe", "{\"\":\"\"}", strings.Repeat("[", 2000), strings.Repeat("{\"a\":", 500), "{\"model\":\"gpt-4\",\"messages\":[{\"role\":\"user\",\"content\":5}]}",
+	"{\"a\":\"\\ud800\"}", "true"}
+
+var fuzzHeaders = []string{"", "host: verif.test", "host: verif.test\r\ncontent-type: application/json", "no-colon-line", ": empty-name",
+	"a: b\r\n\r\nc: d", "a:\r\n", "x-group: g1\r\nx-group: g2", "content-encoding: gzip", "content-encoding: br\r\ncontent-type: application/json",
+	" leading-space: v", "a: b\r\n continuation", "a\x00b: c", strings.Repeat("h: v\r\n", 200), "x-lunar-sequence-id: 1", "content-length: -5",
+	"retry-after: never", "x-quota: NaN\r\nx-reset: -1"}
+
+func rawTxn(r *prng.R, heavy bool) string {
+	dir := "req"
+	if r.Chance(35) {
+		dir = "res"
+	}
+	url := "verif.test/x"
+	body, hdr := "", "host: verif.test"
+	if heavy || r.Chance(50) {
+		url = prng.Pick(r, fuzzURLs)
+	}
+	if heavy || r.Chance(50) {
+		body = prng.Pick(r, fuzzBodies)
+	}
+	if heavy || r.Chance(50) {
+		hdr = prng.Pick(r, fuzzHeaders)
+	}
+	path := "/x"
+	if i := strings.Index(url, "/"); i >= 0 {
+		path = url[i:]
+	}
+	return fmt.Sprintf("rtxn dir=%s method=%s url=%s path=%s query=%s hdr=%s body=%s status=%d", dir,
+		proto.Enc(prng.Pick(r, []string{"GET", "POST", "", "get", "BREW"})), proto.Enc(url), proto.Enc(path),
+		proto.Enc(prng.Pick(r, []string{"", "a=1", "a=1&a=2", "=&=", "%zz"})), proto.Enc(hdr), proto.Enc(body),
+		prng.Pick(r, []int{200, 0, 429, 500, -1, 99999}))
+}
+
+func fuzzCase(r *prng.R, id string) proto.Case {
+	ops := append([]string{}, vocabLines...)
+	ops = append(ops, fmt.Sprintf("quota q1 url=%s %s", prng.Pick(r, []string{"verif.test/*", "verif.test/x", "*"}), validStrat(r).words()))
+	if r.Bool() {
+		ops = append(ops, fmt.Sprintf("ilimit c1 parent=q1 url=- %s", validStrat(r).words()))
+	}
+	ops = append(ops, baseFlow("f1")...)
+	ops = append(ops, "load")
+	for i := 0; i < 12; i++ {
+		ops = append(ops, rawTxn(r, true))
+	}
+	return proto.Case{ID: id, Ops: ops}
+}
+
+// ---------------------------------------------------------------- driver
+
 func gen(r *prng.R, f proto.Flags, emit func(proto.Case)) {
-	emit(proto.Case{ID: "s1", Ops: []string{
-		"ptype PA a:any b:any",
-		"ptype PE a:any b:any e:res",
-		"flow f1",
-		"proc f1 G PE",
-		"proc f1 B PA",
-		"proc f1 C PA",
-		"proc f1 R PA",
-		"conn f1 req S:globalStream:start P:G:%e",
-		"conn f1 req P:G:a S:globalStream:end",
-		"conn f1 res S:globalStream:start P:R:%e",
-		"conn f1 res P:R:a S:globalStream:end",
-		"conn f1 res P:G:a P:B:%e",
-		"conn f1 res P:B:a P:C:%e",
-		"conn f1 res P:C:a P:B:%e",
-		"load",
-		"txn dir=req o=-",
-		"txn dir=res o=f1/R/res=n:a",
-		"txn dir=req o=f1/G/req=e:e,f1/B/res=n:b",
-		"txn dir=req o=f1/G/req=e:e,f1/B/res=n:a,f1/C/res=n:a",
-		"txn dir=res o=f1/R/res=n:a",
-	}})
-	emit(proto.Case{ID: "s2", Ops: []string{
-		"ptype PA a:any b:any",
-		"flow fa",
-		"proc fa A PA",
-		"conn fa req S:globalStream:start P:A:%e",
-		"conn fa req P:A:a F:fb:start",
-		"conn fa res S:globalStream:start S:globalStream:end",
-		"flow fb",
-		"proc fb B PA",
-		"conn fb req S:globalStream:start P:B:%e",
-		"conn fb req P:B:a F:fa:start",
-		"conn fb res S:globalStream:start S:globalStream:end",
-		"load",
-		"txn dir=req o=-",
-	}})
+	thorough := f.Tier == "thorough"
+	mul := f.Budget
+	id := 0
+	next := func(p string) string { id++; return fmt.Sprintf("%s%d", p, id) }
+	b := &budget{crashes: 60 * mul}
+	if thorough {
+		b.crashes = 500 * mul
+	}
+
+	nA, nC, nD, nE, nF, nBsample := 500*mul, 2*mul, 2*mul, 350*mul, 40*mul, 350*mul
+	if thorough {
+		nA, nC, nD, nE, nF = 3000*mul, 6*mul, 4*mul, 2500*mul, 300*mul
+	}
+	for i := 0; i < nA; i++ {
+		emit(randCase(r.Fork(), next("a"), b))
+	}
+	for k := 0; k < nC; k++ {
+		for _, kind := range malformedKinds {
+			emit(malformedCase(r.Fork(), next("c-"+kind+"-"), kind))
+		}
+	}
+	for k := 0; k < nD; k++ {
+		for _, kind := range refKinds {
+			emit(refCase(r.Fork(), next("d-"+kind+"-"), kind))
+		}
+	}
+	for i := 0; i < nE; i++ {
+		emit(quotaCase(r.Fork(), next("e")))
+	}
+	for i := 0; i < nF; i++ {
+		emit(fuzzCase(r.Fork(), next("f")))
+	}
+	consts := []string{"a", "b"}
+	if thorough {
+		// exhaustive: every graph of every space, as response direction (with short-circuit entries) and as
+		// request direction
+		bb := &budget{crashes: 900 * mul}
+		for _, sp := range spaces {
+			total := enumCount(sp.n, sp.self, len(sp.labels))
+			every := 1 + total/300 // spread the crash budget of this space evenly
+			for m := 0; m < total; m++ {
+				g := withLeaves(enumGraph(sp.n, sp.self, sp.labels, m), m)
+				mm := m
+				emit(respCase(next("b-"+sp.name+"-res-"), g, consts, bb, func() bool { return mm%every == 0 }))
+				if sp.n < 4 || mm%3 == 0 {
+					emit(reqCase(next("b-"+sp.name+"-req-"), withLeaves(enumGraph(sp.n, sp.self, sp.labels, m), m), consts))
+				}
+			}
+		}
+	} else {
+		for i := 0; i < nBsample; i++ {
+			rr := r.Fork()
+			sp := prng.Pick(rr, spaces)
+			m := rr.Intn(enumCount(sp.n, sp.self, len(sp.labels)))
+			g := withLeaves(enumGraph(sp.n, sp.self, sp.labels, m), m)
+			if rr.Chance(70) {
+				emit(respCase(next("b-"+sp.name+"-res-"), g, consts, b, func() bool { return true }))
+			} else {
+				cs := consts
+				emit(reqCase(next("b-"+sp.name+"-req-"), g, cs))
+			}
+		}
+	}
 }
